@@ -6,6 +6,7 @@ mod engine;
 mod model;
 mod gen;
 mod tx;
+mod files;
 mod props;
 
 use engine::*;
@@ -35,6 +36,13 @@ fn main() {
         let y = match tx::with_truth(|t| t.parse::<truth::ast::Block>("<input>", s1.as_bytes()).map(|x| x.value).map_err(|e| { e.ignore(); tx::diags(t) })) { Ok(x) => x, Err(d) => { println!("--- first\n{}\nprinted text does not parse:\n{}", s1, d); return; } };
         let s2 = tx::format_at(&y, w).unwrap();
         println!("--- first\n{}--- second\n{}--- equal ast: {}", s1, s2, x == y);
+        return;
+    }
+    if cmd == "core" {
+        // tv core <language> <game>
+        let lang = match args[2].as_str() { "anm" => truth::LanguageKey::Anm, "std" => truth::LanguageKey::Std, "msg" => truth::LanguageKey::Msg, "end" => truth::LanguageKey::End, "timeline" => truth::LanguageKey::Timeline, _ => truth::LanguageKey::Ecl };
+        let t = files::core_table(files::game_from_str(&args[3]), lang);
+        println!("{}", json!({"sigs": t.sigs.iter().map(|(k, v)| (k.to_string(), json!(v))).collect::<serde_json::Map<_, _>>(), "intrinsics": t.intrinsics.iter().map(|(k, v)| (k.to_string(), json!(v))).collect::<serde_json::Map<_, _>>(), "reg_types": t.reg_types.iter().map(|(k, v)| (k.to_string(), json!(v))).collect::<serde_json::Map<_, _>>()}));
         return;
     }
     if cmd == "spec" { println!("{}", gen::lang::default_lang().to_json()); return; }
